@@ -100,7 +100,7 @@ func registerStandardExt() {
 			panic(err)
 		}
 	}
-	for _, p := range []psatoken.IProfile{ExtLaxIDProfile{}, ExtDefaultingProfile{}, ExtShadowProfile{}, ExtOddFieldsProfile{}} {
+	for _, p := range []psatoken.IProfile{ExtLaxIDProfile{}, ExtDefaultingProfile{}, ExtShadowProfile{}, ExtOddFieldsProfile{}, ExtP1With265Profile{}} {
 		if _, _, ok := psatoken.VerifRegistryEntry(p.GetName()); !ok {
 			if err := psatoken.RegisterProfile(p); err != nil {
 				panic(err)
@@ -626,3 +626,56 @@ func (ExtOddFieldsProfile) GetClaims() psatoken.IClaims {
 	}
 	return &ExtOddFieldsClaims{P2Claims: psatoken.P2Claims{Profile: &ep, SwComponents: &psatoken.SwComponents[*psatoken.SwComponent]{}, CanonicalProfile: ExtOddFieldsName}}
 }
+
+// ExtP1With265Claims embeds the profile-1 claims (whose own profile claim, key -75000, stays unset) and identifies its
+// profile through a field of its own under key 265 / member "eat-profile", declared after the embedded struct.
+type ExtP1With265Claims struct {
+	psatoken.P1Claims
+	EAT *eat.Profile `cbor:"265,keyasint" json:"eat-profile"`
+}
+
+const ExtP1With265Name = "http://example.com/psa/p1-with-265"
+
+func (o *ExtP1With265Claims) GetProfile() (string, error) {
+	if o.EAT == nil {
+		return "", psatoken.ErrMandatoryClaimMissing
+	}
+	return o.EAT.Get()
+}
+func (o *ExtP1With265Claims) Validate() error { return psatoken.ValidateClaims(o) }
+func (o ExtP1With265Claims) MarshalCBOR() ([]byte, error) {
+	return encoding.SerializeStructToCBOR(extEM, &o)
+}
+func (o *ExtP1With265Claims) UnmarshalCBOR(d []byte) error {
+	return encoding.PopulateStructFromCBOR(extDM, d, o)
+}
+func (o ExtP1With265Claims) MarshalJSON() ([]byte, error)  { return encoding.SerializeStructToJSON(&o) }
+func (o *ExtP1With265Claims) UnmarshalJSON(d []byte) error { return encoding.PopulateStructFromJSON(d, o) }
+
+type ExtP1With265Profile struct{}
+
+func (ExtP1With265Profile) GetName() string { return ExtP1With265Name }
+func (ExtP1With265Profile) GetClaims() psatoken.IClaims {
+	ep := eat.Profile{}
+	if err := ep.Set(ExtP1With265Name); err != nil {
+		panic(err)
+	}
+	return &ExtP1With265Claims{P1Claims: psatoken.P1Claims{SwComponents: &psatoken.SwComponents[*psatoken.SwComponent]{}, CanonicalProfile: ExtP1With265Name}, EAT: &ep}
+}
+
+// ExtTwoLevelClaims is derived from a derived profile's claims (two levels of embedding); one of its own claims has its
+// tag options in the other order.
+type ExtTwoLevelClaims struct {
+	ExtP2Claims
+	Vendor *string `cbor:"-75400,keyasint,omitempty" json:"vendor,omitempty"`
+	Unset  *string `cbor:"-75401,omitempty,keyasint" json:"unset,omitempty"`
+}
+
+func (o ExtTwoLevelClaims) MarshalCBOR() ([]byte, error) {
+	return encoding.SerializeStructToCBOR(extEM, &o)
+}
+func (o *ExtTwoLevelClaims) UnmarshalCBOR(d []byte) error {
+	return encoding.PopulateStructFromCBOR(extDM, d, o)
+}
+func (o ExtTwoLevelClaims) MarshalJSON() ([]byte, error)  { return encoding.SerializeStructToJSON(&o) }
+func (o *ExtTwoLevelClaims) UnmarshalJSON(d []byte) error { return encoding.PopulateStructFromJSON(d, o) }
